@@ -16,6 +16,9 @@ Translation scheme (one Gallina `let` per Python statement, same order of effect
   f(a, ..)   (f a callback) let w := f A .. w in          (the callback's effect on the rest of the world)
   if c: A else: B           let '(buffer, w) := (if C then A' else B') in
   if x := e: ...            let x := E in let '(..) := (if truthy x then ..) in
+  if c: ...; return         (if C then A' else <translation of the statements after the if>)   [function tail only]
+  s.rindex(t) / a + b / a - b on ints / s[a:b]         str_rindex, Z arithmetic, str_slice
+Python names that clash with Gallina / the vocabulary (text, end, ...) get the prefix py_.
   s.endswith(t) / t in s / x is None / not / and / or / == ...   see `cond`
 Anything else raises `Untranslatable` (the check then reports a broken tie).
 
@@ -53,7 +56,8 @@ RESERVED = {
     # Prim.v vocabulary and Gallina keywords a Python identifier must not capture
     'text', 'buf', 'pykey', 'ch', 'NL', 'Other', 'w', 'st', 'tt', 'unit', 'W',
     'ch_eqb', 'text_eqb', 'key_eqb', 'truthy_key', 'truthy_text', 'is_none', 'str_add',
-    'str_startswith', 'str_endswith', 'str_contains', 'dd_get', 'dd_set', 'dd_pop', 'dd_remove', 'dd_mem',
+    'str_startswith', 'str_endswith', 'str_contains', 'str_rindex', 'rindex_go', 'str_slice', 'py_index',
+    'length', 'firstn', 'skipn', 'repeat', 'map', 'concat', 'dd_get', 'dd_set', 'dd_pop', 'dd_remove', 'dd_mem',
     'negb', 'andb', 'orb', 'true', 'false', 'None', 'Some', 'let', 'in', 'if', 'then', 'else', 'fun', 'match',
     'with', 'end', 'forall', 'exists', 'fix', 'cofix', 'as', 'return', 'Type', 'Prop', 'Set', 'at', 'using',
     'where', 'for', 'nil', 'cons', 'list', 'option', 'Z', 'nat', 'bool', 'rev', 'app', 'fst', 'snd',
@@ -61,8 +65,10 @@ RESERVED = {
 
 
 def ident(name: str, node=None) -> str:
-    if name in RESERVED or not name.isidentifier() or not name.isascii() or name.startswith('_'):
+    if not name.isidentifier() or not name.isascii() or name.startswith('_') or name.startswith('py_'):
         fail(node, f'identifier {name!r} cannot be used in the generated Gallina')
+    if name in RESERVED:
+        return 'py_' + name
     return name
 
 
@@ -85,7 +91,41 @@ class Fn:
         self.statepat = "'(buffer, w)" if has_buffer else "w"
 
     # ---- expressions
-    def expr(self, e, env) -> tuple[str, str]:
+    def expr(self, e, env, want: str | None = None) -> tuple[str, str]:
+        if isinstance(e, ast.Constant) and want == 'int' and isinstance(e.value, int) and not isinstance(e.value, bool):
+            return f'({e.value})', 'int'
+        if isinstance(e, ast.BinOp) and isinstance(e.op, (ast.Add, ast.Sub)):
+            a, ta = self.expr(e.left, env, want)
+            b, tb = self.expr(e.right, env, 'int' if ta == 'int' else None)
+            if ta == tb == 'int':
+                return f'({a} {"+" if isinstance(e.op, ast.Add) else "-"} {b})', 'int'
+            if ta == tb == 'text' and isinstance(e.op, ast.Add):
+                return f'(str_add {a} {b})', 'text'
+            fail(e, '+/- on operands that are not both str or both int')
+        if isinstance(e, ast.Call) and isinstance(e.func, ast.Attribute) and e.func.attr == 'rindex':
+            if len(e.args) != 1 or e.keywords:
+                fail(e, 'rindex with other than one positional argument')
+            o, to = self.expr(e.func.value, env)
+            a, ta = self.expr(e.args[0], env)
+            if to != 'text' or ta != 'text':
+                fail(e, 'rindex on non-str')
+            return f'(str_rindex {o} {a})', 'int'
+        if isinstance(e, ast.Subscript) and isinstance(e.slice, ast.Slice) and isinstance(e.ctx, ast.Load):
+            if e.slice.step is not None:
+                fail(e, 'slice with a step')
+            o, to = self.expr(e.value, env)
+            if to != 'text':
+                fail(e, 'slice of a non-str')
+            bounds = []
+            for bnd in (e.slice.lower, e.slice.upper):
+                if bnd is None:
+                    bounds.append('None')
+                else:
+                    c, tc = self.expr(bnd, env, 'int')
+                    if tc != 'int':
+                        fail(e, 'slice bound that is not an int')
+                    bounds.append(f'(Some {c})')
+            return f'(str_slice {o} {bounds[0]} {bounds[1]})', 'text'
         if isinstance(e, ast.Name):
             if e.id in env:
                 return ident(e.id, e), env[e.id]
@@ -102,12 +142,6 @@ class Fn:
             # read of a defaultdict(str): a missing key reads as '' (that it is also inserted is not
             # observable through the constructs of this fragment)
             return f'(dd_get buffer {self.key_of(e, env)})', 'text'
-        if isinstance(e, ast.BinOp) and isinstance(e.op, ast.Add):
-            a, ta = self.expr(e.left, env)
-            b, tb = self.expr(e.right, env)
-            if ta == tb == 'text':
-                return f'(str_add {a} {b})', 'text'
-            fail(e, '+ on non-str operands')
         if isinstance(e, ast.Call) and isinstance(e.func, ast.Name) and e.func.id in self.thunks:
             if e.args or e.keywords:
                 fail(e, 'arguments to a zero-argument callable')
@@ -115,7 +149,7 @@ class Fn:
         fail(e, 'expression not in the translatable fragment')
 
     def truthy(self, c: str, t: str) -> str:
-        return f'truthy_key {c}' if t == 'pykey' else f'truthy_text {c}'
+        return {'pykey': f'truthy_key {c}', 'text': f'truthy_text {c}', 'int': f'negb (Z.eqb {c} 0)'}[t]
 
     def cond(self, e, env, top=True) -> tuple[list[str], str]:
         """-> (let-prelude lines binding walrus targets, boolean term)"""
@@ -124,7 +158,7 @@ class Fn:
                 fail(e, 'assignment expression nested inside a condition')
             v, t = self.expr(e.value, env)
             x = ident(e.target.id, e)
-            env[x] = t
+            env[e.target.id] = t
             return [f'let {x} := {v} in'], self.truthy(x, t)
         if isinstance(e, ast.UnaryOp) and isinstance(e.op, ast.Not):
             _, c = self.cond(e.operand, env, False)
@@ -149,7 +183,7 @@ class Fn:
                     fail(e, 'assignment expression nested inside a condition')
                 v, t = self.expr(e.left.value, env)
                 x = ident(e.left.target.id, e)
-                env[x] = t
+                env[e.left.target.id] = t
                 pre = [f'let {x} := {v} in']
                 l, tl = x, t
             else:
@@ -168,7 +202,7 @@ class Fn:
             if isinstance(op, (ast.Eq, ast.NotEq)):
                 if tl != tr:
                     fail(e, '== between different types')
-                c = f'{"text_eqb" if tl == "text" else "key_eqb"} {l} {r}'
+                c = f'{ {"text": "text_eqb", "pykey": "key_eqb", "int": "Z.eqb"}[tl]} {l} {r}'
                 return pre, c if isinstance(op, ast.Eq) else f'negb ({c})'
             fail(e, 'comparison operator not supported')
         if isinstance(e, (ast.Name, ast.Constant)):
@@ -209,7 +243,7 @@ class Fn:
             return k
         return None
 
-    def block(self, stmts, env, ind: str, toplevel: bool) -> list[str]:
+    def block(self, stmts, env, ind: str, toplevel: bool, tail: bool = False) -> list[str]:
         out: list[str] = []
         for i, s in enumerate(stmts):
             last = i == len(stmts) - 1
@@ -237,16 +271,16 @@ class Fn:
                     continue
                 if isinstance(t, ast.Name):
                     x = ident(t.id, s)
-                    if x == 'buffer' or x in self.effects or x in self.thunks or x in dict(self.params):
+                    if t.id == 'buffer' or t.id in self.effects or t.id in self.thunks or t.id in dict(self.params):
                         fail(s, 'assignment to a parameter / closure variable')
                     k = self.pop_call(s.value, env)
                     if k is not None:
                         out.append(f"{ind}let '({x}, buffer) := dd_pop buffer {k} in")
-                        env[x] = 'text'
+                        env[t.id] = 'text'
                         continue
                     v, tv = self.expr(s.value, env)
                     out.append(f'{ind}let {x} := {v} in')
-                    env[x] = tv
+                    env[t.id] = tv
                     continue
                 fail(s, 'assignment target not supported')
             if isinstance(s, ast.Delete) and len(s.targets) == 1 and self.is_buffer_sub(s.targets[0]):
@@ -263,6 +297,18 @@ class Fn:
                     out.append(ind + self.effect_call(c, env))
                     continue
                 fail(s, 'call to something that is not a callback parameter')
+            if (isinstance(s, ast.If) and not s.orelse and s.body and isinstance(s.body[-1], ast.Return)
+                    and (s.body[-1].value is None or (isinstance(s.body[-1].value, ast.Constant) and s.body[-1].value.value is None))):
+                # `if c: ...; return` -- allowed where nothing of the function follows the enclosing block
+                if not (toplevel or tail):
+                    fail(s, 'early return inside a block that is not in tail position')
+                pre, c = self.cond(s.test, env, True)
+                out += [ind + p for p in pre]
+                out.append(f'{ind}if {c} then')
+                out += self.block(s.body[:-1], dict(env), ind + '  ', False, False)
+                out.append(f'{ind}else')
+                out += self.block(stmts[i + 1:], env, ind + '  ', toplevel, True)
+                return out
             if isinstance(s, ast.If):
                 pre, c = self.cond(s.test, env, True)
                 out += [ind + p for p in pre]
@@ -289,8 +335,6 @@ class Fn:
 
     def emit(self, fdef: ast.FunctionDef, comment: str) -> str:
         env = {p: t for p, t in self.params}
-        for p, _ in self.params:
-            ident(p, fdef)
         body = self.block(fdef.body, env, '  ', True)
         for f in self.effects:
             if f not in self.effect_types:
@@ -299,9 +343,9 @@ class Fn:
         for f, t in self.thunks.items():
             binders.append(f'({ident(f)} : unit -> {t})')
         for f in self.effects:
-            binders.append(f'({ident(f)} : {" -> ".join(self.effect_types[f] + ["W", "W"])})')
+            binders.append(f'({ident(f)} : {" -> ".join(["Z" if t == "int" else t for t in self.effect_types[f]] + ["W", "W"])})')
         for p, t in self.params:
-            binders.append(f'({p} : {t})')
+            binders.append(f'({ident(p)} : {t})')
         if self.has_buffer:
             head = f'Definition {self.name} {" ".join(binders)} (st : buf * W) : buf * W :=\n  let \'(buffer, w) := st in\n'
         else:
